@@ -221,6 +221,9 @@ func c08Check(st *msState, s *vsched.Sched, tr *vsched.Trace) (string, []vsched.
 	if st.writeErr != nil {
 		add("write-error", st.writeErr.Error())
 	}
+	if tr.Livelock != "" {
+		add("livelock", tr.Livelock)
+	}
 	for _, t := range s.Threads() {
 		if !t.Done() {
 			// a reader may legitimately still wait (blocking reload / preload hint for something not yet published)
